@@ -125,6 +125,16 @@ theorem current_in_inputs (inputs : List ContractId) :
     | ret => intro c hc; exact h c (List.mem_of_mem_tail hc)
     | other => exact h
 
+/-- obligation on the Rust text: `init_inner` assigns `self.input_contracts` from the new transaction's contract inputs
+(a `collect()` into the field, not an `extend`), and no other interpreter code writes the field -/
+theorem input_contracts_reassigned : inputContractsInit = "assigned-from-contract-inputs" := by decide
+
+/-- **A reused instance consults the CURRENT transaction's inputs only**: after any history of earlier transactions
+on the same interpreter, the verifier's answer for the next transaction is the answer a fresh instance gives —
+contracts listed by earlier transactions are not reachable unless listed again. -/
+theorem reuse_does_not_widen_inputs (history : List (List ContractId)) (tx : List ContractId) (c : ContractId) :
+    checkNormal (initInputContracts (history.foldl initInputContracts []) tx) c = checkNormal tx c := rfl
+
 /-- opcodes whose implementation can touch contract state (the checked sites, the current-contract sites and
 the contract-creating / message / output opcodes) -/
 def contractStateOpcodes : List String :=
